@@ -100,11 +100,11 @@ PROPS = {
         harness="h_solver", sources=SOLVER, level="exploration",
         variants=dict(quick=[V("asan", 8, 0.15), V("opt", 16)], thorough=[V("asan", 8, 0.1), V("opt", 16)]),
         rule="switch setting = case mod 32 (all 2^5), stepper mode cycles over 11 (rk2, rk4, rkf45, rkck, rk8pd adaptive and fixed; msadams adaptive), d cycles 2..6; nx in 1..5, "
-             "nrhos 1..3, nscalars 0..3, t_ini in {0,+-0.5,1000}, 1-2 Evolve segments, tolerances 1e-8..1e-11 random. Exact solutions: manufactured (trigonometric targets, non-commuting "
+             "nrhos 1..3, nscalars 0..3, t_ini in {0,+-0.5,1000}, 1-2 Evolve segments, tolerances 1e-8..1e-11 random; a third of the problems at magnitude 1e-9/1e-6/1e-3/1e4 with abs_error three orders below rel_error*|y| (rel and abs distinguishable); non-constraining h_max/h_min in a quarter of the adaptive cases. Exact solutions: manufactured (trigonometric targets, non-commuting "
              "time-dependent HI, GammaRho; source defined from the target) when the source is on, commuting family with time-dependent rates otherwise; scalars likewise. Disabled terms "
              "return NaN. Online monitor: index ranges, time of every term call == time of the opening PreDerive, every enabled term called for every (node,index) per derivative "
              "evaluation, all times inside the Evolve window. distinct_nontrivial = distinct configurations.",
-        floors=dict(quick={"stepper.rk2/adaptive": 20, "stepper.msadams/adaptive": 20, "stepper.rk8pd/fixed": 20, "switches.-----": 10, "switches.CNOGS": 10, "dim.2": 50, "dim.6": 50, "derivative_evaluations": 100000},
+        floors=dict(quick={"magnitude.1e-09": 50, "magnitude.1e-06": 50, "magnitude.10000": 50, "stepper.rk2/adaptive": 20, "stepper.msadams/adaptive": 20, "stepper.rk8pd/fixed": 20, "switches.-----": 10, "switches.CNOGS": 10, "dim.2": 50, "dim.6": 50, "derivative_evaluations": 100000},
                     thorough={"stepper.rk2/adaptive": 1000, "derivative_evaluations": 5000000}),
         assumptions=["adaptive allowance 1e4*(abs+rel*|y|); fixed-step allowance 1e-5(1+|y|) (1e-4 for rk2) with step counts chosen for an a-priori error below 1e-7", "generated rates are bounded (|H|T,|Gamma|T<=3): no stiff problems"],
     ),
@@ -114,8 +114,9 @@ PROPS = {
         rule="nx = 2..130 exhaustively, then random nx up to 5000; for each nx a linear grid (ends over 20 decades, incl. a=0 and integers), a logarithmic grid (a>=1e-10, ratio up to 1e10) and a "
              "user grid (uniform, geometric, clustered, huge gaps, log-random steps). Grid predicates: node count, finite, non-decreasing, first node, last node within the ulp allowance, every "
              "node against the documented formula; user grid stored bitwise, unsorted/wrong-size rejected without change. Lookup: every node, node+-1ulp, midpoints, random points per "
-             "interval, ten outside points incl. +-inf: bracket predicate / last interval for x_last / exception outside.",
-        floors=dict(quick={"nx.exhaustive_2_130": 129, "nx_minus_1.other": 200, "grid.linear": 300, "grid.log": 300, "grid.user": 300, "lookup.inside": 200000, "lookup.outside": 5000},
+             "interval, ten outside points incl. +-inf: bracket predicate / last interval for x_last / exception outside. Every object is then re-initialised once with another node count "
+             "(fewer 60% / more 30% / same 10%) and everything is repeated on it.",
+        floors=dict(quick={"nx.exhaustive_2_130": 129, "nx_minus_1.other": 200, "grid.linear": 300, "grid.log": 300, "grid.user": 300, "reinit.fewer_nodes": 500, "reinit.more_nodes": 200, "lookup.inside": 200000, "lookup.outside": 5000},
                     thorough={"nx.exhaustive_2_130": 129, "lookup.inside": 5000000}),
         assumptions=["logarithmic grids use a>=1e-10 because the library documents a refusal below that"],
     ),
@@ -157,12 +158,12 @@ PROPS = {
     "C16": dict(
         harness="h_life", sources=LIFE, level="fault_enumeration", exhaustive=True,
         variants=dict(quick=[V("asan", 8)], thorough=[V("asan", 8), V("opt", 4)]),
-        rule="for every operation of a 90-entry catalogue (constructors, factories, copy/move/proxy assignments onto empty / other-size / same-size targets, aliasing assignments that go through a "
-             "temporary, chained expressions, rotations, transforms, eigen system, ...) x 6 (target dim, operand dim) pairs x {empty cache, cache primed with a few blocks of both dimensions, cache completely full}: a counting "
+        rule="for every operation of an 83-entry catalogue (constructors, factories, copy/move/proxy assignments onto empty / other-size / same-size targets, aliasing assignments that go through a "
+             "temporary, element-wise operations with a user functor that allocates for every element (construct / assign / compound-assign, lvalue and rvalue operands), chained expressions, rotations, transforms, eigen system, ...) x 6 (target dim, operand dim) pairs x {empty cache, cache primed with a few blocks of both dimensions, cache completely full}: a counting "
              "pass finds the n allocation attempts (operator new and new[]) inside the call, then for k=1..n the same pre-state is rebuilt and exactly the k-th attempt throws std::bad_alloc. "
-             "Judged after each injection: exception type, ownership-flag invariants (hook), other vectors bitwise unchanged, every vector reassigned and destroyed, ledger errors, no array "
+             "Judged after each injection: exception type, ownership-flag invariants (hook; incl. no non-owner still referring to an owned or cached block), other vectors bitwise unchanged, every vector reassigned and destroyed, ledger errors, no array "
              "block live after the cache is drained, ASan. distinct_nontrivial = distinct (operation, dims, cache state, k).",
-        floors=dict(quick={"injections": 1000, "allocation_points": 1000}, thorough={"injections": 1000}),
+        floors=dict(quick={"injections": 3000, "allocation_points": 3000, "op.construct-from-elementwise-allocating-functor(rvalue operand)": 18, "op.T=elementwise-allocating-functor(rvalue operand, resizing)": 18}, thorough={"injections": 3000}),
         assumptions=["only operator new/new[] failures are injected (the property is about std::bad_alloc); GSL's own malloc failures are outside it", "allocations by the harness inside the window (the unique_ptr's object) are extra injection points and harmless"],
     ),
     "C08": dict(
@@ -187,7 +188,7 @@ PROPS = {
              "16 kinds of calls that end in a library exception, and solver objects (construct, grid, evolve, move-construct, move-assign onto a used solver, query incl. rejected queries, re-init, "
              "destroy). Oracles are the generic ones only: ASan/UBSan silence, ledger invariants after every step, ownership-flag invariants, ledger empty after final destruction and cache drain, "
              "LeakSanitizer at exit (GSL's malloc'ed objects).",
-        floors=dict(quick={"steps": 50000, "op.producer": 5000, "op.inplace": 1000, "op.tables": 500, "op.throwing": 1000, "op.solver": 1000, "exceptions.library": 800, "exceptions.solver": 2000, "op.cache_overflow_burst": 500, "op.aligned_factories": 500},
+        floors=dict(quick={"steps": 50000, "op.producer": 5000, "op.inplace": 1000, "op.tables": 500, "op.throwing": 1000, "op.solver": 1000, "exceptions.library": 800, "exceptions.solver": 2000, "exceptions.solver.evolve_gave_up": 150, "op.cache_overflow_burst": 500, "op.aligned_factories": 500},
                     thorough={"steps": 2000000}),
         assumptions=["red-zone sanitizers miss non-adjacent overflows; user storage is therefore exact-size and the model compares every buffer with its image after each step"],
     ),
@@ -223,10 +224,10 @@ PROPS = {
         rule="the full cross product of the discrete axes is enumerated: 28 expression shapes (4 sum, 4 difference, 2 negation, 4 scalar-product, 3 commutator, 3 anticommutator, 2 Evolve(op,t), "
              "2 Evolve(table), 4 user element-wise: every combination of operand value categories, also those for which the library has no dedicated overload) x {=,+=,-=,construct} x target {empty, owned same d, owned other d, external same d, external other d} "
              "x alias {none, v is a, v is b, v is both, v and a different objects on one user buffer} x guarantee set {none, NoAlias, EqualSizes, both, +AlignedStorage} x d=2..6 = 70000 cells; "
-             "inadmissible cells and cells whose guarantee would be false (alignment measured on the actual addresses) are skipped and counted; values random per cell (quick 2 draws; asan 1). "
+             "inadmissible cells and cells whose guarantee would be false (alignment measured on the actual addresses) are skipped and counted; values random per cell (quick 2 draws; asan 1), scalar/time from {2, 1, -1, 0, random}, 10% equal-valued operands, 5% zero operand. "
              "Oracle: the property's own definition - op evaluated into a fresh temporary from fresh copies, then =,+=,-= applied component-wise; NaN pre-fill for plain assignment; documented "
              "exceptions exactly and with the target untouched; operands unchanged unless consumed; external targets still bound; zero allocations in the documented no-allocation cases.",
-        floors=dict(quick={"no_allocation_cases": 3000, "documented_exceptions": 3000, "guarantee.7": 300, "alias.v is a and b": 500, "alias.v and a are different objects on one user buffer": 500,
+        floors=dict(quick={"scalar.one": 3000, "scalar.minus_one": 2000, "scalar.zero": 2000, "no_allocation_cases": 3000, "documented_exceptions": 3000, "guarantee.7": 300, "alias.v is a and b": 500, "alias.v and a are different objects on one user buffer": 500,
                            "target.external other d": 1000, "shape.a.Evolve(table)": 500, "form.SU_vector v(": 500},
                     thorough={"no_allocation_cases": 100000}),
         assumptions=["correctness of the operations themselves is C01-C03's business; here only 'fused == naive' is judged, with 8 eps(|v_old|+|tmp|) for FMA contraction"],
